@@ -196,6 +196,32 @@ struct FOwnKV
   }
 };
 
+// the "connect-once" idiom: the functor shares ownership of a sigc::connection that refers to the very slot the
+// functor lives in; behaviourally invisible (the model treats it as a plain functor), but the connection object is
+// destroyed from inside the destruction of its own slot, wherever the library destroys that slot
+struct FSelf
+{
+  F f;
+  std::shared_ptr<sigc::connection> c;
+  FSelf(int fid, std::shared_ptr<sigc::connection> c_) : f(fid), c(std::move(c_)) {}
+  int operator()(int a) const
+  {
+    int fid = f.fid;
+    return invoke_leaf(fid, a);
+  }
+};
+struct FSelfV
+{
+  F f;
+  std::shared_ptr<sigc::connection> c;
+  FSelfV(int fid, std::shared_ptr<sigc::connection> c_) : f(fid), c(std::move(c_)) {}
+  void operator()(int a) const
+  {
+    int fid = f.fid;
+    invoke_leaf(fid, a);
+  }
+};
+
 // ------------------------------------------------------------------------------------------------
 // accumulator driven by a strategy string (C13)
 // ------------------------------------------------------------------------------------------------
@@ -1031,10 +1057,15 @@ struct Interp
       int rc = 0;
       int st = spec_taint(w[3]);
       sigc::connection c;
+      std::shared_ptr<sigc::connection> selfc; // set for the connect-once variant (plain functors with fid % 3 == 0)
+      if (w[3].rfind("fn:", 0) == 0 && std::atoi(w[3].c_str() + 3) % 3 == 0)
+        selfc = std::make_shared<sigc::connection>();
       if (fl_void(g->fl))
       {
         SlotV tmp;
         rc = make_slot<void>(w[3], tmp);
+        if (!rc && selfc)
+          tmp = SlotV(FSelfV(std::atoi(w[3].c_str() + 3), selfc));
         if (!rc && st >= g->lvl)
           return "badorder";
         if (!rc)
@@ -1050,6 +1081,8 @@ struct Interp
       {
         SlotI tmp;
         rc = make_slot<int>(w[3], tmp);
+        if (!rc && selfc)
+          tmp = SlotI(FSelf(std::atoi(w[3].c_str() + 3), selfc));
         if (!rc && st >= g->lvl)
           return "badorder";
         if (!rc)
@@ -1063,6 +1096,8 @@ struct Interp
       }
       if (rc)
         return rc_name(rc);
+      if (selfc)
+        *selfc = c; // the functor now co-owns a handle to its own slot
       set_conn(k, c);
       return "ok";
     }
@@ -1220,7 +1255,9 @@ struct Interp
       auto c = get(C, idx(w[1]));
       if (!c)
         return "dead";
-      return c->connected() ? "1" : "0";
+      // connected() and operator bool are the same question; both spellings are exercised
+      bool r = (idx(w[1]) % 2 == 0) ? c->connected() : static_cast<bool>(*c);
+      return r ? "1" : "0";
     }
     if (op == "emptyC?" && N(1))
     {
@@ -1336,7 +1373,8 @@ struct Interp
       auto k = get(K, idx(w[1]));
       if (!k)
         return "dead";
-      return k->connected() ? "1" : "0";
+      bool r = (idx(w[1]) % 3 == 0) ? k->connected() : (idx(w[1]) % 3 == 1 ? static_cast<bool>(*k) : !k->empty());
+      return r ? "1" : "0";
     }
     if (op == "blockedK?" && N(1))
     {
